@@ -1,8 +1,3 @@
-"""Per-property wording for MANIFEST.json."""
+"""Wording for MANIFEST.json: per-property text lives in bin/props/<ID>.py (TEXT); reasons for unclaimed properties here."""
+from vprops import TEXT  # noqa: F401
 NOT_YET = {}
-TEXT = {
- 'C18': dict(
-  level='Theorems in Coq over a segment-level model of filepath.Clean/Join/Rel: openAllowed accepts exactly the paths under the cleaned root (all roots, all spellings, unbounded length); every afero.Fs operation of the CURRENT chroot_fs.go (operation table regenerated from the source on every run) hands the inner filesystem only such paths; inside paths keep working and resolve to one file however spelled. The model is tied to the code by running the real ChrootFs over a recording filesystem on every spelling up to 4 (quick) / 6 (thorough) segments over the property\'s alphabet, for every method and both Rename arguments, and comparing with the model inside Coq.',
-  note='Trusted: Coq kernel + vm_compute; the go/ast translator that classifies each path argument as Checked/JoinedOnly/Raw; the harness. path/filepath is modelled, not verified (tied by exhaustive correspondence). Lexical confinement only (no symlinks, no remote-import cache). Import-statement resolution is not yet in the model.',
-  technique='Coq proof over path model + regenerated operation table + exhaustive small-alphabet correspondence'),
-}
